@@ -1,5 +1,6 @@
 import StunVerif.Props.C09
 import StunVerif.Props.C09Burst
+import StunVerif.Props.SrcFnParse
 #print axioms StunVerif.C09.xor_constant
 #print axioms StunVerif.C09.crc_check_value
 #print axioms StunVerif.C09.build_fp
@@ -10,3 +11,14 @@ import StunVerif.Props.C09Burst
 #print axioms StunVerif.C09.corruption_needs_collision
 #print axioms StunVerif.C09.fp_detects
 #print axioms StunVerif.C09.fp_detects_parser
+#print axioms StunVerif.SrcFnParse.ArrInv.init
+#print axioms StunVerif.SrcFnParse.len_le_three
+#print axioms StunVerif.SrcFnParse.ending_ne_zero
+#print axioms StunVerif.SrcFnParse.ArrInv.contains_eq
+#print axioms StunVerif.SrcFnParse.ArrInv.push
+#print axioms StunVerif.SrcFnParse.setLen_mod
+#print axioms StunVerif.SrcFnParse.endingTypes_eq
+#print axioms StunVerif.SrcFnParse.fp_mem
+#print axioms StunVerif.SrcFnParse.walk_agree
+#print axioms StunVerif.SrcFnParse.src_msgFromBytes
+#print axioms StunVerif.SrcFnParse.src_accepts_iff
